@@ -11,6 +11,7 @@ import SparkxVerif.Lemmas.QC
 import SparkxVerif.Lemmas.QC6
 import SparkxVerif.Lemmas.QCDiff
 import SparkxVerif.Lemmas.QCGen
+import SparkxVerif.Lemmas.QCGenDiff
 import Mathlib.Analysis.SpecialFunctions.Trigonometric.Basic
 
 open ComplexConjugate Finset BigOperators
@@ -384,6 +385,74 @@ theorem gen_flow_table (root : ℝ → ℕ → ℝ) (k : ℕ) (hk : k = 2 ∨ k 
       Gen.QCumulant.flowFromCumulant root k .nan c = .nan) := by
   simp only [QCGen.factor_gen k hk, QCGen.flowFromCumulant_gen root k hk]
   exact flow_table root k c
+
+/-! ### the differential bin function `__compute_differential_flow_bin` regenerated from the source text (tie T)
+
+`Gen.QCumulant.dargs2 E c2` / `dargs4 E c2 c4` are the two arguments the current source hands to
+`__flow_from_cumulant_differential` for `k_ = 2` / `k_ = 4` (value part; `E` the flagged events of the bin, `c2`, `c4` the
+entries of `full_event_quantities` that `differential_flow` fills with `<<2>>`, `<<4>>` of the full events).  The code
+returns the real part of the decision function's result, i.e. the decision function of the real part of its second
+argument (`dflow` is that real-part function, as in `dvn`). -/
+
+/-- the arguments as translated from the current source are what the model `dvn` feeds to `dflow`:
+`(<<2>>, Re<<2'>>)` and `(<<4>> − 2<<2>>², Re<<4'>> − 2 Re<<2'>> <<2>>)` - although the code drops the events of weight 0
+(guarded division) and the model's `<<2'>>`, `<<4'>>` sum every numerator -/
+theorem gen_dargs_eq (n : ℕ) (evs : List (List (ℝ × Bool))) (c2 c4 : ℝ) :
+    (Gen.QCumulant.dargs2 (evs.map (punitsEv n)) c2).1 = c2 ∧
+    (Gen.QCumulant.dargs2 (evs.map (punitsEv n)) c2).2.re = (dcorr2 (evs.map (punitsEv n))).re ∧
+    (Gen.QCumulant.dargs4 (evs.map (punitsEv n)) c2 c4).1 = c4 - 2 * c2 ^ 2 ∧
+    (Gen.QCumulant.dargs4 (evs.map (punitsEv n)) c2 c4).2.re =
+      (dcorr4 (evs.map (punitsEv n))).re - 2 * (dcorr2 (evs.map (punitsEv n))).re * c2 :=
+  QCGD.dargs_gen _ (fun e he => by
+    obtain ⟨ps, _, rfl⟩ := List.mem_map.1 he
+    exact punitsEv_isUnit n ps) c2 c4
+
+/-- the differential flow of a bin computed ENTIRELY by functions translated from the current source
+(`__calculate_corr` for `<<2>>`, `<<4>>` of the full events, `__compute_differential_flow_bin` for the arguments,
+`__flow_from_cumulant_differential` for the decision) -/
+noncomputable def genDvn (rootp : ℝ → ℕ → ℕ → ℝ) (k : ℕ) (im : Imag) (E : List (PEvent ℝ)) : Flow ℝ :=
+  let c2 := Gen.QCumulant.corr2 (E.map full)
+  let c4 := Gen.QCumulant.corr4 (E.map full)
+  match k with
+  | 2 => Gen.QCumulant.dflow rootp 2 im (Gen.QCumulant.dargs2 E c2).1 (Gen.QCumulant.dargs2 E c2).2.re
+  | 4 => Gen.QCumulant.dflow rootp 4 im (Gen.QCumulant.dargs4 E c2 c4).1 (Gen.QCumulant.dargs4 E c2 c4).2.re
+  | _ => .nan
+
+/-- … is the model's `dvn`, so `dvn_eq`, `dcorr2_eq`, `dcorr4_eq`, `dflow_table` speak about the regenerated functions -/
+theorem gen_dvn_eq (rootp : ℝ → ℕ → ℕ → ℝ) (im : Imag) (n : ℕ) (evs : List (List (ℝ × Bool))) :
+    genDvn rootp 2 im (evs.map (punitsEv n)) = dvn rootp 2 im (evs.map (punitsEv n)) ∧
+    genDvn rootp 4 im (evs.map (punitsEv n)) = dvn rootp 4 im (evs.map (punitsEv n)) := by
+  obtain ⟨a1, a2, _, _⟩ := gen_dargs_eq n evs (corr2 ((evs.map (punitsEv n)).map full)) 0
+  obtain ⟨_, _, b1, b2⟩ := gen_dargs_eq n evs (corr2 ((evs.map (punitsEv n)).map full))
+    (corr4 ((evs.map (punitsEv n)).map full))
+  obtain ⟨d2, d4⟩ := dvn_eq rootp im n evs
+  constructor
+  · simp only [genDvn, QCGen.corr2_gen, QCGen.dflow_gen, a1, a2, d2]
+  · simp only [genDvn, QCGen.corr2_gen, QCGen.corr4_gen, QCGen.dflow_gen, b1, b2, d4]
+
+/-- **C11, differential flow, stated about the regenerated functions**: `v'_n{2}`, `v'_n{4}` of a bin as computed by
+the translated source are `__flow_from_cumulant_differential` of the DEFINING correlators -
+`<<2>>`, `<<4>>`: averages of `cos n(φ1−φ2)`, `cos n(φ1+φ2−φ3−φ4)` over all tuples of distinct particles of the events;
+`<<2'>>`, `<<4'>>`: the same with the first particle restricted to the POI of the bin - for any events, any
+multiplicities (including events without POI in the bin or with fewer than four particles) -/
+theorem gen_dvn_defining (rootp : ℝ → ℕ → ℕ → ℝ) (im : Imag) (n : ℕ) (evs : List (List (ℝ × Bool))) :
+    let φ := evs.map (fun ps => ps.map (·.1))
+    let C2 := (φ.map (cosSum 2 ![1, -1] n)).sum / (φ.map (fun φs => tupleCount 2 φs.length)).sum
+    let C4 := (φ.map (cosSum 4 ![1, 1, -1, -1] n)).sum / (φ.map (fun φs => tupleCount 4 φs.length)).sum
+    let D2 := (evs.map (dcosSum 1 ![1, -1] n)).sum / (evs.map (dtupleCount 1 n)).sum
+    let D4 := (evs.map (dcosSum 3 ![1, 1, -1, -1] n)).sum / (evs.map (dtupleCount 3 n)).sum
+    genDvn rootp 2 im (evs.map (punitsEv n)) = dflow rootp 2 im C2 D2 ∧
+    genDvn rootp 4 im (evs.map (punitsEv n)) = dflow rootp 4 im (C4 - 2 * C2 ^ 2) (D4 - 2 * D2 * C2) := by
+  intro φ C2 C4 D2 D4
+  have hfull : (evs.map (punitsEv n)).map full = φ.map (unitsEv n) := by
+    simp only [φ, List.map_map]
+    apply List.map_congr_left
+    intro ps _
+    exact full_punitsEv n ps
+  obtain ⟨g2, g4⟩ := gen_dvn_eq rootp im n evs
+  obtain ⟨d2, d4⟩ := dvn_eq rootp im n evs
+  rw [g2, g4, d2, d4, hfull, corr2_eq, corr4_eq, dcorr2_eq, dcorr4_eq]
+  exact ⟨rfl, rfl⟩
 
 /-! ### non-vacuity: a concrete non-trivial sample meets the hypotheses -/
 
